@@ -817,10 +817,10 @@ PROPS = {
             "cases": lambda tier, seed: [(m, c + huge_cases(m) + raw_natural_cases(m) + extend_ref_cases(m) + lying_hint_cases(m) + grow_with_tail_cases(m) + mixed_alignment_cases(m)) for m, c in general(tier, seed, "C03", modes=("debug", "release"))],
             "owned_oracles": ["O alloc", "O cap"], "owned_diffs": ["alloc", "ub", "crash"],
             "partial_missing": ["layout quoting proved for grow (every caller), Drop and IntoIter::drop; C03_world_all_histories: for EVERY finite sequence of protocol operations of the register machine on any number of registers (every constructor of Op: all four iterators alive across other operations, two-vector operations, serde, raw round trips, spare capacity, count) every register stays well formed and no step is an illegal access, a failed assertion or a hang (non-panicking callbacks); the theorem is about the model, tied to the code by the correspondence + checking allocator"]},
-    "C04": {"modules": ["MiniVecProof.Props.C04", "MiniVecProof.Props.C04Drain", "MiniVecProof.Props.C04IntoIter", "MiniVecProof.Props.C04DrainFilter", "MiniVecProof.Props.C04Loops", "MiniVecProof.Props.C04Dedup", "MiniVecProof.Props.C01"],
+    "C04": {"modules": ["MiniVecProof.Props.C04", "MiniVecProof.Props.C04Drain", "MiniVecProof.Props.C04IntoIter", "MiniVecProof.Props.C04DrainFilter", "MiniVecProof.Props.C04Loops", "MiniVecProof.Props.C04Dedup", "MiniVecProof.Props.C04MacroRepeat", "MiniVecProof.Props.C04Splice", "MiniVecProof.Props.C04Histories", "MiniVecProof.Props.C01"],
             "cases": lambda tier, seed: [("debug", corpus("debug", "C04") + panic_sweep(tier, seed, "debug") + panic_prefix_cases("debug"))],
             "owned_oracles": ["O ledger", "O alloc", "X signal", "panic-prefix"], "owned_diffs": ["own", "contents", "result", "panic", "alloc", "ub", "crash"],
-            "partial_missing": ["proved under an ARBITRARY panic oracle (any subset of the callbacks may panic): truncate, clear (C04_truncate_partial, C04_clear_partial: length cut before the first destructor, every doomed element destroyed once unless the double-panic abort) and retain with a panicking predicate or destructor (C04_retain_partial: what is exposed plus what was destroyed is a rearrangement of the contents); drop_in_place semantics dropAll_any; the drop guard of Drain (C04_drain_drop_partial: a destructor panic while the Drain is dropped — the guard destroys the rest and moves the tail back, a second panic is the abort) and Drop for IntoIter (C04_into_iter_drop_partial); DrainFilter::next with a panicking predicate at any point of the scan (C04_drain_filter_partial: the guard moves the unscanned rest back, the vector exposes kept ++ unscanned and nothing was destroyed); dropping a DrainFilter with any predicate call or destructor panicking (C04_drain_filter_drop_partial: never an abort, every unscanned element exposed or destroyed exactly once); extend / extend_from_slice / resize / resize_with with the callback panicking at any call (C04Loops: the elements produced so far stay), Clone for MiniVec (C12_clone_any: source untouched; C12_clone_from_any: self untouched or the new clones in place); collect and From<&[T]> (C04_collect_any, C04_from_slice_any: the partial result is unwound, the caller's vector untouched), dedup / dedup_by / dedup_by_key with the comparison, predicate or key function panicking at any call (C04_dedup_partial: only swaps, so every element is still there exactly once); every other callback site (the Splice drop guard, mini_vec![e; n], serde) is decided by the exhaustive crash-point sweep of the correspondence"]},
+            "partial_missing": ["proved under an ARBITRARY panic oracle (any subset of the callbacks may panic): truncate, clear (C04_truncate_partial, C04_clear_partial: length cut before the first destructor, every doomed element destroyed once unless the double-panic abort) and retain with a panicking predicate or destructor (C04_retain_partial: what is exposed plus what was destroyed is a rearrangement of the contents); drop_in_place semantics dropAll_any; the drop guard of Drain (C04_drain_drop_partial: a destructor panic while the Drain is dropped — the guard destroys the rest and moves the tail back, a second panic is the abort) and Drop for IntoIter (C04_into_iter_drop_partial); DrainFilter::next with a panicking predicate at any point of the scan (C04_drain_filter_partial: the guard moves the unscanned rest back, the vector exposes kept ++ unscanned and nothing was destroyed); dropping a DrainFilter with any predicate call or destructor panicking (C04_drain_filter_drop_partial: never an abort, every unscanned element exposed or destroyed exactly once); extend / extend_from_slice / resize / resize_with with the callback panicking at any call (C04Loops: the elements produced so far stay), Clone for MiniVec (C12_clone_any: source untouched; C12_clone_from_any: self untouched or the new clones in place); collect and From<&[T]> (C04_collect_any, C04_from_slice_any: the partial result is unwound, the caller's vector untouched), dedup / dedup_by / dedup_by_key with the comparison, predicate or key function panicking at any call (C04_dedup_partial: only swaps, so every element is still there exactly once); mini_vec![e; n] (C04_macro_repeat_any), the Splice drop guard at any point of the iterator's consumption (C04_splice_drop_partial: the destructors of the unyielded elements, the replacement's next() and everything the guard calls while a panic unwinds may panic; C04_splice_drop_default_partial on a never-allocated vector), remove_item (PartialEq panics) and extend_from_within (Clone panics; its guard publishes the clones made so far); C04_histories_partial: EVERY history over the 25 operation kinds of HOp with ANY arguments under ANY panic oracle runs to its end or stops at the first operation that does not return, and unless the process aborted (allocation failure, second panic while unwinding) the vector is well formed, so the history can go on; the multi-register operations and serde under panics are decided by the exhaustive crash-point sweep of the correspondence"]},
     "C05": {"modules": ["MiniVecProof.Props.C05", "MiniVecProof.Props.C05Iters"],
             "cases": lambda tier, seed: [("debug", corpus("debug", "C05") + forget_cases(tier, seed, "debug") + soak(tier, seed, "debug", "C05"))],
             "owned_oracles": ["O ledger", "O alloc", "X signal"], "owned_diffs": ["own", "contents", "result", "ub", "crash"],
